@@ -42,8 +42,10 @@ def from_callback_(
                     observer.on_next(results)
                     observer.on_completed()
                 else:
-                    if len(results) <= 1:
-                        observer.on_next(*results)
+                    if not results:
+                        observer.on_next(None)
+                    elif len(results) == 1:
+                        observer.on_next(results[0])
                     else:
                         observer.on_next(results)
 
